@@ -7,13 +7,14 @@ line numbers stay aligned with the input.
 import Driver.Notation
 import Driver.Indent
 import Driver.Print
+import Driver.Suppress
 import Driver.TreeIO
 import Driver.RuleIO
 
 open Lean Driver
 
 def allOps : List (String × Handler) :=
-  notationOps ++ indentOps ++ printOps
+  notationOps ++ indentOps ++ printOps ++ suppressOps
 
 /-- ops that read or extend the driver state (registered documents) -/
 def allStateOps : List (String × SHandler) :=
